@@ -67,7 +67,7 @@ func (r *Run) opDeviceAuthz(st Step) {
 	}
 	now := r.now()
 	g := r.L.NewGrant(&Grant{Client: cs.ID, Origin: "device", Scopes: nil, Audience: splitNonEmpty(st.p("aud")), ReqAt: now,
-		Params: map[string]string{"decision": "", "requested_scope": st.p("scope")}})
+		Params: map[string]string{"decision": "", "requested_scope": st.p("scope"), "requested_aud": st.p("aud")}})
 	for _, c := range r.L.Creds {
 		if (c.Kind == "dc" && (c.Val == dc || c.Val == uc)) || (c.Kind == "uc" && (c.Val == uc || c.Val == dc)) {
 			r.violate("C16", "device-or-user-code-repeated", c.Kind, "a device/user code was handed out twice")
@@ -96,6 +96,9 @@ func (r *Run) opDeviceAuthz(st Step) {
 
 func (r *Run) opDeviceDecide(st Step) {
 	uc := r.L.Select(st.G, "uc")
+	if st.p("latest") != "" {
+		uc = r.L.SelectFromEnd(0, "uc")
+	}
 	if uc == nil {
 		r.logf("device_decide: no user code yet")
 		return
@@ -110,12 +113,28 @@ func (r *Run) opDeviceDecide(st Step) {
 	if gs := st.p("grant"); gs != "" {
 		grant = splitNonEmpty(gs)
 	}
+	// the resource owner may consent to a part of what the device asked for: the first n requested scopes / audiences
+	reqScopes, reqAud := splitNonEmpty(g.Params["requested_scope"]), splitNonEmpty(g.Params["requested_aud"])
+	if n := st.p("grant_first"); n != "" && len(reqScopes) > 1 {
+		var k int
+		fmt.Sscanf(n, "%d", &k)
+		grant = reqScopes[:1+k%(len(reqScopes)-1)]
+	}
+	var grantAud []string
+	if n := st.p("aud_first"); n != "" && len(reqAud) > 0 {
+		var k int
+		fmt.Sscanf(n, "%d", &k)
+		grantAud = append([]string{}, reqAud[:k%len(reqAud)]...)
+		if grantAud == nil {
+			grantAud = []string{}
+		}
+	}
 	val := uc.Val
 	if st.p("mutate") != "" {
 		val = val + "X"
 	}
 	r.Fault.suspend++
-	why := r.A.DeviceVerify(val, accept, sub, grant)
+	why := r.A.DeviceVerify(val, accept, sub, grant, grantAud)
 	r.Fault.suspend--
 	exp, _ := r.L.Expect(uc, r.now())
 	r.logf("device_decide %s %s sub=%s -> %q", uc.Name(), map[bool]string{true: "accept", false: "reject"}[accept], sub, why)
@@ -141,6 +160,18 @@ func (r *Run) opDeviceDecide(st Step) {
 			}
 			g.OpenID = has(g.Scopes, "openid")
 			g.AuthTime = r.now()
+			g.Audience = nil
+			for _, a := range reqAud {
+				if grantAud == nil || has(grantAud, a) {
+					g.Audience = append(g.Audience, a)
+				}
+			}
+			if grant != nil && len(grant) < len(reqScopes) {
+				r.probe("device-partial-scope-consent")
+			}
+			if grantAud != nil && len(grantAud) < len(reqAud) {
+				r.probe("device-partial-audience-consent")
+			}
 		} else {
 			g.Params["decision"] = "rejected"
 		}
@@ -152,6 +183,9 @@ func (r *Run) opDeviceDecide(st Step) {
 
 func (r *Run) opDeviceToken(st Step) {
 	dc := r.L.Select(st.G, "dc")
+	if st.p("latest") != "" {
+		dc = r.L.SelectFromEnd(0, "dc")
+	}
 	if dc == nil {
 		r.logf("device_token: no device code yet")
 		return
@@ -430,15 +464,21 @@ func (r *Run) opPARPush(st Step) {
 	// same request validation as the authorization endpoint (C17) and the secure-redirect clause (C11)
 	gg := &Grant{Client: cs.ID, Scopes: splitNonEmpty(form.Get("scope")), Audience: splitNonEmpty(form.Get("audience"))}
 	r.checkConfinement("par", cs, gg, desc)
-	if ru := form.Get("redirect_uri"); ru != "" {
+	ru := form.Get("redirect_uri")
+	if ru != "" {
 		if RefRedirectQualifies(ru, cs.RedirectURIs) == No {
 			r.violate("C11", "par-accepted-unregistered-redirect", "", "%s: pushed redirect_uri %q does not qualify (registered %v)", desc, ru, cs.RedirectURIs)
 			r.violate("C17", "par-accepted-unregistered-redirect", "", "%s: pushed redirect_uri %q does not qualify (registered %v)", desc, ru, cs.RedirectURIs)
 		}
+	}
+	if ru == "" && len(cs.RedirectURIs) == 1 {
+		ru = cs.RedirectURIs[0] // the single registered URI is the target
+	}
+	if ru != "" {
 		if u, err := url.Parse(ru); err == nil && u.Scheme == "http" && !r.W.K.AllowInsecureRedirect {
 			h := u.Hostname()
 			if !(h == "localhost" || strings.HasSuffix(h, ".localhost") || isLoopbackIP(h)) {
-				r.violate("C11", "insecure-redirect-accepted", "par", "the pushed-authorization endpoint accepted the plain-http redirect target %q", ru)
+				r.violate("C11", "insecure-redirect-accepted", "par:"+form.Get("response_type"), "the pushed-authorization endpoint accepted the plain-http redirect target %q (response_type %q)", ru, form.Get("response_type"))
 			}
 		}
 	}
@@ -485,7 +525,7 @@ func (r *Run) opAuthorizePAR(st Step) {
 	if sub == "" {
 		sub = "user-P"
 	}
-	con := &Consent{Subject: sub}
+	con := &Consent{Subject: sub, Deny: st.p("deny") != ""}
 	r.parState = ""
 	pushedRedirect := ""
 	if pc != nil {
@@ -801,15 +841,35 @@ func (r *Run) opRotateGlobal(st Step) {
 		k.Secret = DefaultSecret
 	}
 	cur := k.Secret
+	keep := func() {
+		if cur != UnsetSecret {
+			k.RotatedSecrets = append([]string{cur}, k.RotatedSecrets...)
+		}
+	}
 	switch st.V {
 	case "keep_old": // new current secret, old one listed as rotated
-		k.RotatedSecrets = append([]string{cur}, k.RotatedSecrets...)
+		keep()
 		k.Secret = st.p("new")
 	case "forget_old": // new current secret, old one NOT listed
 		k.Secret = st.p("new")
 	case "short": // a secret shorter than 32 bytes must be refused: nothing can be minted, nothing validates under it
-		k.RotatedSecrets = append([]string{cur}, k.RotatedSecrets...)
+		keep()
 		k.Secret = st.p("new")
+	case "unset": // the current secret is withdrawn and none takes its place: only the rotated list (incl. the old one) validates
+		keep()
+		k.Secret = UnsetSecret
+	case "empty_rotated": // an unset entry slips into the rotated list (front or back)
+		if st.p("pos") == "back" {
+			k.RotatedSecrets = append(k.RotatedSecrets, "")
+		} else {
+			k.RotatedSecrets = append([]string{""}, k.RotatedSecrets...)
+		}
+	case "only_empty": // no usable secret at all: unset current secret, rotated list of unset entries
+		k.Secret = UnsetSecret
+		k.RotatedSecrets = []string{""}
+		if st.p("n") == "2" {
+			k.RotatedSecrets = []string{"", ""}
+		}
 	case "drop_rotated":
 		k.RotatedSecrets = nil
 	case "reverse_rotated":
@@ -819,12 +879,19 @@ func (r *Run) opRotateGlobal(st Step) {
 	}
 	r.shortSecret = len(k.Secret) < 32
 	r.shortRotated = false
+	usable := !r.shortSecret
 	for _, s := range k.RotatedSecrets {
 		if len(s) < 32 {
 			r.shortRotated = true // a too-short secret left in the rotated list aborts validation when it is tried before the right one
+		} else {
+			usable = true
 		}
 	}
+	r.noUsableSecret = !usable
 	r.W.Cfg.GlobalSecret = []byte(k.Secret)
+	if k.Secret == UnsetSecret {
+		r.W.Cfg.GlobalSecret = nil
+	}
 	r.W.Cfg.RotatedGlobalSecrets = nil
 	for _, s := range k.RotatedSecrets {
 		r.W.Cfg.RotatedGlobalSecrets = append(r.W.Cfg.RotatedGlobalSecrets, []byte(s))
@@ -842,7 +909,10 @@ func (r *Run) opRotateGlobal(st Step) {
 			c.Extra["minted_under"] = cur
 		}
 		if strings.Count(c.Val, ".") == 1 && c.State == Live { // opaque HMAC credential
-			if r.shortSecret || r.shortRotated {
+			if r.noUsableSecret {
+				// neither the current nor any rotated secret is a usable (>= 32 byte) secret: nothing authenticates any more
+				r.L.Kill(c, Dead, "C06")
+			} else if r.shortSecret || r.shortRotated {
 				c.Unspec = true // a too-short current secret is refused; what still validates under the rotated list is not pinned down
 			} else if !valid[c.Extra["minted_under"]] {
 				r.L.Kill(c, Dead, "C06")
